@@ -111,31 +111,33 @@ func Conflicts(m Model, method, p string) []string {
 
 // Cfg selects what the engine checks.
 type Cfg struct {
-	Methods     []string
-	Observers   bool // full observer comparison after every step (C02)
-	Snapshots   bool // re-observe every live snapshot after every step (C03)
+	Methods          []string
+	Observers        bool // full observer comparison after every step (C02)
+	Snapshots        bool // re-observe every live snapshot after every step (C03)
+	QuietTxn         bool // do not call Iter() on the open write transaction when observing it
 	LenAfterTruncate bool
-	MaxParams   int
-	MaxKey      int
+	MaxParams        int
+	MaxKey           int
 }
 
 // Engine couples a router with its model.
 type Engine struct {
-	Cfg    Cfg
-	F      *fox.Router
-	Sink   *rt.Sink
-	Model  Model // committed state
-	Txn    *fox.Txn
-	TxnM   Model // state seen by the open write transaction
-	Pool   []string
-	Seq    int
-	Snaps  []*Snap
-	Steps  int
+	Cfg   Cfg
+	F     *fox.Router
+	Sink  *rt.Sink
+	Model Model // committed state
+	Txn   *fox.Txn
+	TxnM  Model // state seen by the open write transaction
+	Pool  []string
+	Seq   int
+	Snaps []*Snap
+	Steps int
 	// statistics for the caller
 	Stat map[string]int
 	// settled transactions kept for "settled-use"
-	Settled []*fox.Txn
+	Settled     []*fox.Txn
 	lastRemoved []Key
+	noIter      bool
 }
 
 // New creates an engine on a fresh router.
@@ -198,7 +200,10 @@ var ErrDeadlock = errors.New("writer lock not released")
 // guarded runs fn in its own goroutine. If it does not finish, the goroutine
 // dump decides: blocked in sync.(*Mutex).Lock below a fox frame means the writer
 // lock was leaked (a violation); anything else is reported as inconclusive.
-func guarded(fn func()) (err error, inconclusive bool) {
+func guarded(fn func()) (err error, inconclusive bool) { return Guarded(fn, 20*time.Second) }
+
+// Guarded is the exported form of the writer-lock watchdog (see guarded).
+func Guarded(fn func(), wait time.Duration) (err error, inconclusive bool) {
 	done := make(chan any, 1)
 	go func() {
 		defer func() { done <- recover() }()
@@ -210,16 +215,16 @@ func guarded(fn func()) (err error, inconclusive bool) {
 			panic(p)
 		}
 		return nil, false
-	case <-time.After(20 * time.Second):
+	case <-time.After(wait):
 	}
 	buf := make([]byte, 1<<20)
 	buf = buf[:runtime.Stack(buf, true)]
 	for _, g := range strings.Split(string(buf), "\n\n") {
-		if strings.Contains(g, "sync.(*Mutex).Lock") && strings.Contains(g, "github.com/tigerwill90/fox.(*Router)") && strings.Contains(g, "hist.guarded") {
+		if strings.Contains(g, "sync.(*Mutex).Lock") && strings.Contains(g, "github.com/tigerwill90/fox.(*Router)") && strings.Contains(g, "hist.Guarded") {
 			return fmt.Errorf("%w: a write is blocked in sync.(*Mutex).Lock:\n%s", ErrDeadlock, g), false
 		}
 	}
-	return fmt.Errorf("write did not finish within 20s but is not blocked on the writer lock"), true
+	return fmt.Errorf("write did not finish within %v but is not blocked on the writer lock", wait), true
 }
 
 // Inconclusive is set when a guarded call timed out for a reason other than the writer lock.
